@@ -810,6 +810,8 @@ structure HQ2 (cfg : Cfg) (n : Net) (x y : Nat) (stx sty : NetStation) (r q : In
   headX : cvis cfg (rpTx y stx.s.p.address sty.s.p.address state q) (n.bus.seen.getD x 0) < 6
   stampX : stx.s.lastBusActivity = some lX
   lXge : r + (cfg.b66 : Nat) ≤ lX
+  qlate : r + (cfg.b66 : Nat) < q
+  pbok : lX = r + (cfg.b66 : Nat) ∨ lX ≤ n.bus.seen.getD x 0
   slotok : q + ((cfg.ce (cvis cfg (rpTx y stx.s.p.address sty.s.p.address state q) (n.bus.seen.getD x 0)) : Nat) : Int) ≤
     lX + (cfg.slot : Nat)
   starts : ∀ t ∈ n.bus.txs, t.start ≤ tl
@@ -922,7 +924,7 @@ theorem hq1_listener {cfg : Cfg} {n : Net} {x y : Nat} {stx sty : NetStation} {r
     refine ⟨hS, by rw [hset, List.getElem?_set_ne h.yx]; exact hs.gx, by rw [hset, List.length_set]; exact hs.xl,
       by rw [hbus, e4]; simp only [List.length_set]; exact hs.xs,
       ⟨hs.online, hs.alive, hs.inv, hs.son, hs.prate, hs.pslot⟩, by rw [haddrY]; exact h.stx_st, by rw [haddrY]; exact h.stx_gap,
-      h.yx, ?_, ?_, ?_, ?_, hs.stamp, Int.le_refl _, ?_, ?_, ?_⟩
+      h.yx, ?_, ?_, ?_, ?_, hs.stamp, Int.le_refl _, by omega, .inl rfl, ?_, ?_, ?_⟩
     · rw [haddrY]
       refine ⟨old', by rw [hbus, e1]; rfl, ?_⟩
       intro o ho
@@ -942,5 +944,62 @@ theorem hq1_listener {cfg : Cfg} {n : Net} {x y : Nat} {stx sty : NetStation} {r
       · exact Int.le_trans (h.starts t (e2 t ht)) htl
       · simp only [List.mem_singleton] at ht; subst ht; exact Int.le_refl _
     · rw [hseen, hsxx]; exact ⟨Int.le_trans h.seens.1 htl, Int.le_refl _⟩
+
+/-! ### The claimant while the reply arrives -/
+
+/-- Waiting for the reply with an incomplete telegram in the buffer, slot time not run out. -/
+theorem claimAwait_partial (c : Ctx) (now l : Int) (fuel a : Nat) (rx' : Bytes) (ret : Bool)
+    (hst : c.s.st = .claimToken (.scanAwait a)) (hl : c.s.lastBusActivity = some l) (hg : c.s.gap = .doPoll a)
+    (hne : a ≠ c.s.p.address) (hrx : receiveTelegram c.rx = .done rx' [] ret) (hw : now ≤ l + (c.s.p.slotTime : Nat)) :
+    doClaimToken c now (fuel + 1) = .ok { c with rx := rx' } := by
+  have hag := StationGap.awaitGap_silent c now a rx' ret hne hg hrx
+  rw [stamped_of_some c.s now l hl, checkSlot_some _ _ _ hl] at hag
+  have hc : ({ c with rx := rx', s := c.s } : Ctx) = { c with rx := rx' } := rfl
+  rw [hc] at hag
+  conv => lhs; unfold doClaimToken
+  simp only [hst, hag]
+  have hx : ¬ now > l + (c.s.p.slotTime : Nat) := by omega
+  simp only [hx, decide_false, if_false, Bool.false_eq_true]
+
+/-- The reply of the polled station arrives and does not admit it (not ready): the scan goes on. -/
+theorem claimAwait_reply (c : Ctx) (now : Int) (fuel a : Nat) (rx' : Bytes) (t : Telegram) (fl ret : Bool)
+    (rest : List (Telegram × Bool)) (state : ResponseState) (status : ResponseStatus)
+    (hst : c.s.st = .claimToken (.scanAwait a)) (hg : c.s.gap = .doPoll a) (hne : a ≠ c.s.p.address)
+    (hrx : receiveTelegram c.rx = .done rx' ((t, fl) :: rest) ret)
+    (hr : replyOf c.s.p.address a t = some (state, status)) (hna : ¬ Admits state status) :
+    doClaimToken c now (fuel + 1) =
+      .ok { c with rx := rx', s := { (markRx c.s now) with st := .claimToken .scan } } := by
+  have hag := awaitGap_other c now a rx' t fl ret rest state status hne hg hrx hr hna
+  conv => lhs; unfold doClaimToken
+  simp only [hst, hag, upd]
+
+/-- The status reply as a telegram. -/
+def rpTel (aL aH : Nat) (state : ResponseState) : Telegram :=
+  .data (fdlStatusResponseHeader (UInt8.ofNat aL) (UInt8.ofNat aH) state .ok) []
+
+theorem statusResponse_frame (aL aH : Nat) (state : ResponseState) :
+    statusResponseBytes aL aH state = (rpTel aL aH state).wire := by
+  have h1 := statusResponse_serialize aL aH state
+  have h2 := serialize_ok (fdlStatusResponseHeader (UInt8.ofNat aL) (UInt8.ofNat aH) state .ok) []
+    (by simp [Header.lengthByte, Header.saps, fdlStatusResponseHeader])
+  rw [h1] at h2
+  cases h2
+  rfl
+
+theorem rpTel_valid (aL aH : Nat) (state : ResponseState) (h1 : aL < 128) (h2 : aH < 128) : (rpTel aL aH state).Valid := by
+  unfold rpTel Telegram.Valid
+  refine ⟨?_, ?_, by simp [Header.lengthByte, Header.saps, fdlStatusResponseHeader]⟩
+  · simp [fdlStatusResponseHeader, UInt8.lt_iff_toNat_lt]; omega
+  · simp [fdlStatusResponseHeader, UInt8.lt_iff_toNat_lt]; omega
+
+theorem replyOf_rpTel (aL aH : Nat) (state : ResponseState) (h1 : aL < 128) (h2 : aH < 128) :
+    replyOf aL aH (rpTel aL aH state) = some (state, .ok) := by
+  unfold replyOf rpTel
+  have e1 : (fdlStatusResponseHeader (UInt8.ofNat aL) (UInt8.ofNat aH) state .ok).sa.toNat = aH := u8n aH (by omega)
+  have e2 : (fdlStatusResponseHeader (UInt8.ofNat aL) (UInt8.ofNat aH) state .ok).da.toNat = aL := u8n aL (by omega)
+  show (if (fdlStatusResponseHeader (UInt8.ofNat aL) (UInt8.ofNat aH) state .ok).sa.toNat = aH ∧
+      (fdlStatusResponseHeader (UInt8.ofNat aL) (UInt8.ofNat aH) state .ok).da.toNat = aL then _ else _) = _
+  rw [if_pos ⟨e1, e2⟩]
+  rfl
 
 end PV
